@@ -62,3 +62,36 @@ Definition site_ok (s : ndsite) : bool :=
   end.
 Lemma no_nondeterminism_sources : forallb site_ok ndsites = true.
 Proof. vm_compute. reflexivity. Qed.
+
+(* ---- C16: every store collection of every custom module takes part in export and import ------------ *)
+From Sge Require Import Gen.genesis.
+(* collections that are legitimately absent, each with its reason *)
+Definition not_exported_ok : list (string * string) := [
+  ("orderbook", "ParticipationExposureByIndexKeyPrefix");    (* derived index: exported as a copy of prefix 03, equal by C10 *)
+  ("orderbook", "FeeGrantPrefix");                            (* declared, never used *)
+  ("orderbook", "SettledOrderbookParticipationListPrefix");   (* never written *)
+  ("subaccount", "SubaccountOwnerPrefix");                    (* derived index: rebuilt by SetSubaccountOwner at import *)
+  ("reward", "RewardGrantStatKeyPrefix")                      (* KNOWN FINDING D8b: cap counters are lost on restart *)
+].
+Definition not_imported_ok : list (string * string) := [
+  ("orderbook", "FeeGrantPrefix");
+  ("orderbook", "SettledOrderbookParticipationListPrefix");
+  ("reward", "RewardGrantStatKeyPrefix")                      (* KNOWN FINDING D8b *)
+].
+Definition pair_mem (m p : string) (l : list (string * string)) : bool :=
+  existsb (fun x => String.eqb (fst x) m && String.eqb (snd x) p) l.
+Definition module_covered (g : gmodule) : bool :=
+  forallb (fun p => (mem_str (fst p) (gm_exported g) || pair_mem (gm_name g) (fst p) not_exported_ok) &&
+                    (mem_str (fst p) (gm_imported g) || pair_mem (gm_name g) (fst p) not_imported_ok)) (gm_prefixes g).
+Lemma genesis_collections_covered : forallb module_covered genesis_modules = true.
+Proof. vm_compute. reflexivity. Qed.
+(* the exception lists are tight: each listed collection really is absent (so a repair shows up here) *)
+Lemma genesis_exceptions_tight :
+  forallb (fun x => existsb (fun g => String.eqb (gm_name g) (fst x) && mem_str (snd x) (map fst (gm_prefixes g)) &&
+                                      negb (mem_str (snd x) (gm_exported g))) genesis_modules) not_exported_ok = true.
+Proof. vm_compute. reflexivity. Qed.
+(* all eight custom modules are in the table *)
+Lemma genesis_all_modules :
+  forallb (fun m => existsb (fun g => String.eqb (gm_name g) m) genesis_modules)
+          ["bet"; "house"; "market"; "mint"; "orderbook"; "ovm"; "reward"; "subaccount"] = true.
+Proof. vm_compute. reflexivity. Qed.
